@@ -40,6 +40,15 @@ def make(kind, p, rng):
         return ips.PhaseScreenKolmogorov(T(p["nx"]), p["ps"], p["r0"], p["L0"], random_seed=rng, stencil_length_factor=T(p["factor"]))
 
 
+def refused(ctx, p):
+    """The code documents one refusal (LinAlgError: 'try with a larger pixel scale or smaller L0') for outer scales it cannot
+    handle in double precision - of the order of 1e9 pixels.  It is a rejection by construction only there: parameters
+    with L0 up to 1e6 pixels (the customary "Kolmogorov" outer scale of 1e6 m on a 1 m pixel) must construct."""
+    ratio = float(p["L0"]) / float(p["ps"])
+    ctx.require(ratio > 1e6, "construction of a %s screen refused with LinAlgError for ordinary parameters: nx=%r, pixel=%r, r0=%r, L0=%r (L0/pixel = %.3g)" % (p.get("kind", "vk"), p["nx"], p["ps"], p["r0"], p["L0"], ratio))
+    ctx.reject("documented_LinAlgError_on_construction")
+
+
 def sibling_first(ctx, kind, p):
     """An earlier screen of the same process that shares derived quantities with the one about to be built (the same
     L0/r0, the same geometry in pixels, the same dimensionless numbers): whatever it left behind must not reach it."""
@@ -124,7 +133,7 @@ def body(ctx, p):
     try:
         scr = make(kind, p, rng)
     except (linalg.LinAlgError, np.linalg.LinAlgError) as e:
-        ctx.reject("documented_LinAlgError_on_construction")
+        refused(ctx, p)
         return
     ips = IPS()
     nxi = scr._scrn.shape[1]
@@ -262,7 +271,7 @@ def stream_body(ctx, p):
     try:
         scr = c_make_int(p)
     except (linalg.LinAlgError, np.linalg.LinAlgError):
-        ctx.reject("documented_LinAlgError_on_construction")
+        refused(ctx, p)
         return
     ctx.case(p, nontrivial=p["rows"] >= 2, classes=[p["kind"]])
     W = scr._scrn.shape
